@@ -1171,16 +1171,28 @@ struct Sim {
             ctx.evf("load missing ok=%d", ok);
             return;
         }
-        SyncTwinMeta(false);
+        // The loader applies a record's own fee delta right before it submits the record, and the prioritisation-map section only after
+        // all records. The twin mirrors that order: own delta, submission, and the rest of the prioritisation at the end (a map entry for
+        // an existing transaction that the loaded one has just replaced would otherwise make the twin refuse the replacement).
         size_t mirrored = 0;
         for (auto& t : ladded) {
             auto pe = post.txs.find(t->GetHash());
             if (pe == post.txs.end()) { ctx.probe("added_tx_gone_again"); continue; }
-            auto res = Atmp(*P.T.n, t, pe->second.time);
+            if (CAmount diff = pe->second.delta - Observe(*P.T.n).Delta(t->GetHash())) P.T.n->pool().PrioritiseTransaction(t->GetHash(), diff);
+            auto submit = [&] {
+                auto first = Atmp(*P.T.n, t, pe->second.time);
+                if (first.m_result_type == MempoolAcceptResult::ResultType::VALID) return first;
+                // a damaged file may also have carried deltas for other transactions in earlier records: retry with all of them
+                SyncTwinMeta(false);
+                ctx.probe("twin_submission_needed_full_prioritisation");
+                return Atmp(*P.T.n, t, pe->second.time);
+            };
+            auto res = submit();
             if (res.m_result_type != MempoolAcceptResult::ResultType::VALID)
                 ctx.failf("load-added-tx-normal-submission-rejects", "%s: the load added %s, which normal submission on the twin (same chain, same mempool, same prioritisation) rejects: %s", where, Hx(t->GetHash()).c_str(), res.m_state.GetRejectReason().c_str());
             ++mirrored;
         }
+        SyncTwinMeta(false);
         // pre-existing entries: all still there (entries past the expiry window, or below one, are subject to ordinary expiry
         // as soon as anything is accepted; an entry evicted by an accepted replacement is ordinary RBF)
         std::set<Txid> expirable;
@@ -1193,13 +1205,23 @@ struct Sim {
         std::set<COutPoint> post_spent;
         for (auto& [id, e] : post.txs)
             for (auto& in : e.tx->vin) post_spent.insert(in.prevout);
+        // (a replacement takes the descendants of the entries it conflicts with along)
+        std::set<Txid> replaced_set;
+        for (auto& id : TopoOrder(pre)) {
+            const EntryView& e = pre.txs.at(id);
+            bool x = false;
+            for (auto& in : e.tx->vin) x |= post_spent.count(in.prevout) > 0 || replaced_set.count(in.prevout.hash) > 0;
+            if (x && !post.txs.count(id)) replaced_set.insert(id);
+        }
         for (auto& [id, e] : pre.txs) {
             if (post.txs.count(id)) continue;
             if (expirable.count(id)) { ctx.probe("preexisting_entry_expired_during_load"); continue; }
-            bool replaced = false;
-            for (auto& in : e.tx->vin) replaced |= post_spent.count(in.prevout) > 0;
+            const bool replaced = replaced_set.count(id) > 0;
             if (replaced) { ctx.probe("preexisting_entry_replaced_during_damaged_load"); continue; }
-            ctx.failf("existing-entry-removed-by-damaged-load", "%s: pre-existing mempool entry %s (unexpired, not replaced) is gone after loading the damaged file", where, Hx(id).c_str());
+            std::string why = "no removal notification";
+            for (auto& [rid, rs] : P.L.rec->removed)
+                if (rid == id) why = RemovalReasonToString(rs);
+            ctx.failf("existing-entry-removed-by-damaged-load", "%s: pre-existing mempool entry %s (unexpired, not replaced) is gone after loading the damaged file (removal reason: %s; entry time %lld, expiry cutoff %lld)", where, Hx(id).c_str(), why.c_str(), (long long)e.time, (long long)cutoff);
         }
         // entries the target lost legitimately (classified above) leave the twin as well
         {
